@@ -510,6 +510,10 @@ func (ev *evalCtx) call(e *SExpr) Val {
 		if len(e.Args) != 2 || e.Args[1].Op != "str" {
 			return ev.fail("isclass(ch, \"name\")")
 		}
+		if e.Args[1].Str == "none" {
+			// a plain channel: not one of the declared classes (nil counts as plain)
+			return ghost(fmt.Sprintf("(or (= %s 0) (= (ch_class %s) 0))", argv(0).T, argv(0).T), "Bool")
+		}
 		cc := ex.specs.Classes[e.Args[1].Str]
 		if cc == nil {
 			return ev.fail("unknown channel class %s", e.Args[1].Str)
